@@ -58,3 +58,4 @@ LEVEL_NOTE = ("Trusted: Lean kernel; axioms propext/Classical.choice/Quot.sound 
               "Break-even positions count as wins for the win rate and contribute zero gross win, so break-evens + losses give Decimal::MIN; "
               "the doc comment of ProfitFactor says `1.0` for zero profits and zero losses while code and unit test return None (reported, not a C16 clause). "
               "Additionally tied by translation: the Lean definitions of the kernels calculate_pnl_return (position.rs), WinRate::calculate (metric/win_rate.rs), ProfitFactor::calculate (metric/profit_factor.rs) are regenerated from the current source on every run (tools/rust2lean.py) and proved equal to the model's (kernels_agree_with_source), so a change of such a kernel breaks a proof obligation directly; the translator and its Decimal prelude are trusted for that tie.")
+SUBCHECKS = ["C16M"]
